@@ -25,7 +25,9 @@ RULE = (
     "canary differentiations is bitwise equal to the table computed by a fresh subprocess at the start of the run; registries "
     "(primitive_vjps, primitive_jvps, notrace_primitives, Box.type_mappings, VSpace.mappings) have the same keys and identities; "
     "warnings filter and numpy.random state are restored by the harness. Non-trivial = the history contains a failure at depth >= 2 "
-    "caught at an enclosing level that continued (or a closure fault), followed by a canary; distinct by history."
+    "caught at an enclosing level that continued (or a closure fault), followed by a canary; distinct by history. operator_reuse: the VJP "
+    "function and the JVP function of every call template are called three times (first argument, another, the first again): the "
+    "first and the third answers are bitwise equal."
 )
 
 _REF = {}
@@ -433,12 +435,71 @@ def _enclosing_numeric(catch, x0):
     return val
 
 
+def reuse_body(tname, c):
+    """One derivative-function object of a drawn primitive configuration used several times: every call of the VJP function is a pure
+    function of its cotangent (first / other / first again), and so is every call of the JVP function of its tangent."""
+    import autograd
+
+    from ..derivcheck import primal
+    from ..templates import TEMPLATES
+    from ..templates.core import instantiate, namespaces
+    from .. import values as _values
+    from ..case import raised as _raised
+
+    inst = instantiate(c, TEMPLATES[tname].draw(c))
+    sample = inst.describe()
+    st, y0 = primal(inst)
+    if st != "ok":
+        return Outcome("numpy_rejects", detail=str(y0)[:100], sample=sample)
+    NP, AG = namespaces()
+    y0a = onp.asarray(y0)
+    xa = onp.asarray(inst.x)
+    mk = (lambda sh, s_: _values.cdirection(inst.vseed, sh, s_)) if y0a.dtype.kind == "c" else (lambda sh, s_: _values.direction(inst.vseed, sh, s_))
+    g1, g2 = onp.array(mk(y0a.shape, 71)), onp.array(mk(y0a.shape, 72))
+    results = {}
+    try:
+        vjp, y = autograd.make_vjp(inst.f(AG))(inst.x_carried())
+        results["vjp"] = [onp.asarray(vjp(g1)), onp.asarray(vjp(g2)), onp.asarray(vjp(g1))]
+    except Exception as e:
+        if not from_autograd(e):
+            raise
+        results["vjp"] = e
+    try:
+        mkv = (lambda s_: _values.cdirection(inst.vseed, xa.shape, s_)) if xa.dtype.kind == "c" else (lambda s_: _values.direction(inst.vseed, xa.shape, s_))
+        v1, v2 = onp.array(mkv(73)), onp.array(mkv(74))
+        if xa.ndim == 0 and not isinstance(inst.x_carried(), onp.ndarray):
+            v1, v2 = (complex(v1), complex(v2)) if xa.dtype.kind == "c" else (float(v1), float(v2))
+        jvp = autograd.make_jvp(inst.f(AG))(inst.x_carried())
+        results["jvp"] = [onp.asarray(jvp(v1)[1]), onp.asarray(jvp(v2)[1]), onp.asarray(jvp(v1)[1])]
+    except Exception as e:
+        if not from_autograd(e):
+            raise
+        results["jvp"] = e
+    if all(isinstance(r, Exception) for r in results.values()):
+        return _raised(results["vjp"], "reuse", sample=sample)
+    for api, r in results.items():
+        if isinstance(r, Exception):
+            continue
+        if r[0].shape != r[2].shape or not onp.array_equal(r[0], r[2], equal_nan=True):
+            return fail("history_dependence", f"the {api.upper()} function of {tname} {inst.call.desc} gives a different answer when called again with the same "
+                        "argument after an intermediate call", f"C19|reuse|{api}|{tname}", sample=sample)
+    return ok(nontrivial=True, key=json.dumps([tname, inst.call.desc], default=repr), labels=["reuse", "family=" + TEMPLATES[tname].family], sample=sample)
+
+
 from functools import partial  # noqa: E402
 
-PROP = Prop("C19", [
-    Test("histories", partial(body, 12), quick=1000, thorough=0, shard_size=64),
-    Test("histories_long", partial(body, 30), quick=0, thorough=3000, shard_size=100),
-], RULE, level="fault_enumeration", assumptions=[
+def _tests():
+    from ..templates import TEMPLATES
+
+    out = [Test("histories", partial(body, 12), quick=1000, thorough=0, shard_size=64),
+           Test("histories_long", partial(body, 30), quick=0, thorough=3000, shard_size=100)]
+    # one test per call template (a drawn template index is far from uniform under Hypothesis)
+    out += [Test("operator_reuse:" + name, partial(reuse_body, name), quick=80 * t.weight, thorough=500 * t.weight, shard_size=300)
+            for name, t in sorted(TEMPLATES.items())]
+    return out
+
+
+PROP = Prop("C19", _tests(), RULE, level="fault_enumeration", assumptions=[
     "the canary table of a fresh subprocess (same tree, PYTHONHASHSEED=0) is the reference for 'as in a fresh interpreter'",
     "faults are injected through user code only (user primitives, plain raise, warnings filter); the internal depth counter is not asserted on",
 ], selftest=selftest)
